@@ -51,6 +51,7 @@ Ent(v, a, s, r, t) == <<v, a, s, r, t>>
 Cand == {Ent("V1", "bin1", "s1", "b1", "package"), Ent("V1", "bin1", "s1", "d1", "debug"), Ent("V1", "bin2", "s1", "b1", "package"),
          Ent("V1", "bin1", "s2", "b2", "package"), Ent("V2", "bin1", "s1", "b1", "package"),
          Ent("V1", "src", "s1", "s1", "source"), Ent("V1", "src", "s2", "s2", "source"), Ent("V2", "src", "s2", "s2", "source"),
+         Ent("V2", "src", "s1", "s1", "source"),       \* the same source package in the src tables of two variants
          Ent("V2", "src", "n1", "n1", "source")}
 DocOf(S) == [k \in {<<e[1], e[2], e[3], e[4]>> : e \in S} |->
                LET e == CHOOSE x \in S : <<x[1], x[2], x[3], x[4]>> = k
@@ -65,7 +66,7 @@ GNext == /\ Len(hist) < D
          /\ CASE Mode = "matrix" -> Matrix
               [] Mode = "hist"   -> HistStep
               [] Mode = "edit"   -> EditStep
-              [] Mode = "load03" -> (IF hist = <<>> THEN LoadStep ELSE HistStep)
+              [] Mode = "load03" -> (IF hist = <<>> THEN LoadStep ELSE EditStep)
 Flat == {[v |-> k[1], a |-> k[2], srpm |-> k[3], rpm |-> k[4], path |-> rpms[k].path, sigkey |-> rpms[k].sigkey,
           category |-> rpms[k].category] : k \in DOMAIN rpms}
 Emit == PrintT("@@" \o ToJson([hist |-> hist, rpms |-> Flat]))
